@@ -355,5 +355,20 @@ def check(run: Run):
     ]
 
 
+def replay_case(detail):
+    import tempfile
+
+    from graph import replay_detail
+
+    ids = sorted(detail.get("from", {}).get("comp", {"a": 0, "ba": 0}))
+    root = Path(tempfile.mkdtemp(prefix="c13-replay-", dir="/var/tmp"))
+    try:
+        kind = str(detail.get("key", "dir")).split(":")[0]
+        ad = (SqliteAdapter if kind == "sqlite" else DirAdapter)(ids, ["l1"], root)
+        return replay_detail(ad, detail)
+    finally:
+        shutil.rmtree(root, ignore_errors=True)
+
+
 if __name__ == "__main__":
     sys.exit(main_wrapper(check, "C13"))
